@@ -5,11 +5,14 @@ package scen
 import (
 	"encoding/hex"
 	"fmt"
+	"strings"
 
 	"github.com/vapourismo/knx-go/knx"
+	"github.com/vapourismo/knx-go/knx/cemi"
 	"github.com/vapourismo/knx-go/knx/knxnet"
 	"github.com/vapourismo/knx-go/verifmc/mc"
 	"github.com/vapourismo/knx-go/verifmc/vnet"
+	"verifh/harness/fakesock"
 	"verifh/harness/h"
 )
 
@@ -109,7 +112,17 @@ func wireAcksRun() func() {
 			ack(7, 0, 0, "network duplicate")
 			mc.Sleep(1 * ms)
 		}
-		switch mc.Choose(5, mc.Free) {
+		switch mc.Choose(7, mc.Free) {
+		case 5:
+			// a datagram that was cut off: the acknowledgement of the next number without its status
+			// octet (what lies behind it in the receive buffer is left over from the datagram before)
+			b := pack(&knxnet.TunnelRes{Channel: 7, SeqNumber: 1, Status: 0})
+			mc.Log(Note("cut-off datagram " + hex.EncodeToString(b[:9])))
+			ep.Inject(b[:9], nil)
+		case 6:
+			b := pack(&knxnet.TunnelRes{Channel: 7, SeqNumber: 1, Status: 0})
+			mc.Log(Note("cut-off datagram " + hex.EncodeToString(b[:6])))
+			ep.Inject(b[:6], nil)
 		case 1:
 			ack(9, 1, 0, "another connection's acknowledgement")
 		case 2:
@@ -143,6 +156,10 @@ func wireAcksOracle(prop string) func(tr *mc.Trace) []h.Violation {
 		for _, e := range tr.Log {
 			switch x := e.V.(type) {
 			case Note:
+				if strings.HasPrefix(string(x), "cut-off datagram") {
+					hist = append(hist, string(x))
+					continue
+				}
 				bad("fullstack-setup", "%s", string(x))
 			case BusPut:
 				bus[x.ID]++
@@ -179,4 +196,147 @@ func wireAcksOracle(prop string) func(tr *mc.Trace) []h.Violation {
 func init() {
 	register("both", &h.Scenario{Name: "C03-fullstack-acknowledgement-datagrams-while-idle", Prop: "C03", P: 1, F: 0, D: 1, Run: wireAcksRun(), Check: wireAcksOracle("C03")})
 	register("both", &h.Scenario{Name: "C05-fullstack-acknowledgement-datagrams-while-idle", Prop: "C05", P: 1, F: 0, D: 1, Run: wireAcksRun(), Check: wireAcksOracle("C05")})
+}
+
+// ---- C05 through the group layer: what reaches the bus is the event that was sent ----
+
+// BusEvent is logged when the gateway twin accepts a request: destination and payload as the
+// octets of that request say.
+type BusEvent struct {
+	Seq  uint8
+	Dst  uint16
+	Data string
+}
+
+func (b BusEvent) String() string {
+	return fmt.Sprintf("BUS seq=%d dst=%#04x data=%s", b.Seq, b.Dst, b.Data)
+}
+
+// GroupSent is logged when GroupTunnel.Send returns.
+type GroupSent struct {
+	Dst  uint16
+	Data string
+	Err  string
+}
+
+func (g GroupSent) String() string {
+	return fmt.Sprintf("GROUP-SEND dst=%#04x data=%s -> %q", g.Dst, g.Data, g.Err)
+}
+
+// groupSendersRun: n application goroutines send one group write each (different destinations,
+// payloads of different and of equal lengths) through one group tunnel; the first transmission of
+// every request is lost, so every telegram reaches the gateway through a retransmission that is made
+// while the other senders have already entered Send. The gateway twin follows the tunnelling rules
+// and records what it puts on the bus, octet for octet.
+func groupSendersRun(n int) func() {
+	return func() {
+		sock := fakesock.New("udp")
+		expected := uint8(0)
+		seen := map[uint8]int{}
+		sock.OnSend = func(s *fakesock.Sent) {
+			switch x := s.Svc.(type) {
+			case *knxnet.ConnReq:
+				sock.Deliver(&knxnet.ConnRes{Channel: 7, Status: 0, Control: knxnet.HostInfo{Protocol: knxnet.UDP4}})
+			case *knxnet.TunnelReq:
+				// the gateway sees the octets of the request as they were at the time of the write
+				raw := pack(x)
+				var v knxnet.Service
+				if _, err := knxnet.Unpack(raw, &v); err != nil {
+					return
+				}
+				req := v.(*knxnet.TunnelReq)
+				seen[req.SeqNumber]++
+				if seen[req.SeqNumber] == 1 {
+					return // lost
+				}
+				switch req.SeqNumber {
+				case expected:
+					if ld, ok := req.Payload.(*cemi.LDataReq); ok {
+						if app, ok := ld.Data.(*cemi.AppData); ok {
+							mc.Log(BusEvent{req.SeqNumber, ld.Destination, hex.EncodeToString(app.Data)})
+						}
+					}
+					expected++
+					sock.Deliver(&knxnet.TunnelRes{Channel: 7, SeqNumber: req.SeqNumber, Status: 0})
+				case expected - 1:
+					sock.Deliver(&knxnet.TunnelRes{Channel: 7, SeqNumber: req.SeqNumber, Status: 0})
+				}
+			}
+		}
+		gt, err := knx.NewGroupTunnelOnSocket(sock, TCfg(100, 350, 100000000))
+		if err != nil {
+			mc.Log(Note("connect failed: " + err.Error()))
+			return
+		}
+		mc.GoEnv("reader", func() {
+			for {
+				if _, ok := gt.Inbound().Recv2(); !ok {
+					return
+				}
+			}
+		})
+		lens := [][]int{{2, 2, 2}, {3, 1, 2}, {1, 3, 3}}[mc.Choose(3, mc.Free)]
+		done := mc.NewChan[int](n, "c05g.done")
+		for i := 0; i < n; i++ {
+			i := i
+			mc.GoEnv(fmt.Sprintf("app%d", i), func() {
+				data := make([]byte, lens[i%3])
+				for k := range data {
+					data[k] = byte(0x10*(i+1) + k)
+				}
+				dst := uint16(0x0A00 + i)
+				err := gt.Send(knx.GroupEvent{Command: knx.GroupWrite, Destination: cemi.GroupAddr(dst), Data: data})
+				mc.Log(GroupSent{dst, hex.EncodeToString(data), errStr(err)})
+				done.Send(1)
+			})
+		}
+		for i := 0; i < n; i++ {
+			done.Recv()
+		}
+		mc.Sleep(10 * ms)
+		gt.Close()
+	}
+}
+
+func groupSendersOracle(tr *mc.Trace) []h.Violation {
+	vs := generic(tr, "C05", true)
+	bad := func(class, format string, a ...interface{}) {
+		vs = append(vs, h.Violation{Class: "C05:" + class, Msg: fmt.Sprintf(format, a...)})
+	}
+	bus := map[string]int{}
+	var busList, sent []string
+	for _, e := range tr.Log {
+		switch x := e.V.(type) {
+		case Note:
+			bad("setup", "%s", string(x))
+		case BusEvent:
+			k := fmt.Sprintf("%#04x=%s", x.Dst, x.Data)
+			bus[k]++
+			busList = append(busList, k)
+		case GroupSent:
+			if x.Err != "" {
+				bad("group-send-failed", "Send of %#04x=%s failed (%s) although the gateway acknowledges every retransmission", x.Dst, x.Data, x.Err)
+				continue
+			}
+			sent = append(sent, fmt.Sprintf("%#04x=%s", x.Dst, x.Data))
+		}
+	}
+	if tr.Reason != "main-returned" {
+		return vs
+	}
+	for _, k := range sent {
+		if bus[k] != 1 {
+			bad("sent-telegram-not-on-the-bus-once", "Send of %s succeeded; the gateway put it on the bus %d times. Bus, in order: %v; successful Sends: %v", k, bus[k], busList, sent)
+			break
+		}
+	}
+	if len(busList) != len(sent) {
+		bad("bus-carries-what-nobody-sent", "bus, in order: %v; successful Sends: %v", busList, sent)
+	}
+	return vs
+}
+
+func init() {
+	register("both", &h.Scenario{Name: "C05-group-tunnel-2senders-every-first-transmission-lost", Prop: "C05", P: 2, F: 0, D: 2, Run: groupSendersRun(2), Check: groupSendersOracle})
+	register("both", &h.Scenario{Name: "C05-group-tunnel-3senders-every-first-transmission-lost", Prop: "C05", P: 1, F: 0, D: 1, Run: groupSendersRun(3), Check: groupSendersOracle})
 }
